@@ -95,10 +95,53 @@ class NumberBook(gen.Textbook):
     operand position, and (b) the purely numeric shapes for which braille codes have forms of their own: numeric fractions, inline
     'number / number' rows of exactly three children, mixed numbers, negative numerators, numeric scripts and indices."""
 
-    CONSTRUCTS = gen.Textbook.CONSTRUCTS + ["numfrac", "slash3", "mixedint", "negslash", "numscript", "numroot", "numcell"]
+    CONSTRUCTS = gen.Textbook.CONSTRUCTS + ["numfrac", "slash3", "mixedint", "negslash", "numscript", "numroot", "numcell", "styled_neighbour"]
     P_WHOLE = 0.45
+    P_STYLED = 0.12            # share of the planted literals (and of the identifiers) that carry a typeface
+    STYLES = ["bold", "italic", "bold-italic", "double-struck", "sans-serif", "bold-sans-serif", "sans-serif-italic", "sans-serif-bold-italic",
+              "monospace", "script", "bold-script", "fraktur", "bold-fraktur", "normal"]
 
     def literal(self):
+        n = self.plain_literal()
+        if self.rng.random() < self.P_STYLED:
+            n.attrs["mathvariant"] = self.rng.choice(self.STYLES)
+        return n
+
+    def operand(self, depth):
+        n = gen.Textbook.operand(self, depth)
+        if n.kids is None and n.tag == "mi" and self.rng.random() < self.P_STYLED:
+            n.attrs["mathvariant"] = self.rng.choice(self.STYLES)
+        return n
+
+    def styled_token(self):
+        """a token with a typeface that is NOT a planted literal: identifier, short unplanted number, word"""
+        r = self.rng
+        k = r.random()
+        if k < 0.35:
+            n = gen.mi(r.choice(gen.VARS + gen.GREEK + list("ABRNZ")))
+        elif k < 0.7:
+            n = gen.mn(str(r.randint(0, 99)))
+        elif k < 0.85:
+            n = gen.mtext(r.choice(["and", "or", "if", "mod"]))
+        else:
+            n = gen.mi(r.choice(["AB", "xy", "Var", "max"]))
+        n.attrs["mathvariant"] = r.choice(self.STYLES)
+        return n
+
+    def c_styled_neighbour(self, d):
+        """a styled token next to plain literals: before / after, joined by an operator with or without space, or juxtaposed"""
+        r = self.rng
+        op = lambda: gen.mo(r.choice(gen.RELS + gen.ADDOPS + gen.MULOPS))
+        kids = [self.styled_token(), op(), self.plain_literal()]
+        if r.random() < 0.5:
+            kids.reverse()
+        if r.random() < 0.4:
+            kids += [op(), self.plain_literal() if r.random() < 0.6 else self.styled_token()]
+        if r.random() < 0.25:
+            kids = [self.plain_literal(), op()] + kids
+        return gen.mrow(*kids)
+
+    def plain_literal(self):
         r = self.rng
         if r.random() < self.P_WHOLE:
             for _ in range(200):
@@ -128,6 +171,13 @@ class NumberBook(gen.Textbook):
             return self.literal()
         finally:
             self.P_WHOLE = old
+
+    # the shared constructs that take their base from Textbook.base() get styled identifiers as well
+    def base(self, d):
+        n = gen.Textbook.base(self, d)
+        if n.kids is None and n.tag == "mi" and self.rng.random() < self.P_STYLED:
+            n.attrs["mathvariant"] = self.rng.choice(self.STYLES)
+        return n
 
     def c_numfrac(self, d):
         a = {"bevelled": "true"} if self.rng.random() < 0.2 else {}
@@ -285,6 +335,34 @@ def literal_cells(code, lit, dropped=False):
         else:
             return None
     return "".join(out)
+
+
+def fold_digits(s):
+    """mathematical (bold, double-struck, sans-serif, monospace ...) digits -> ASCII digits, by the Unicode decimal-digit property"""
+    import unicodedata
+    if s.isascii():
+        return s
+    return "".join(str(unicodedata.digit(c)) if ord(c) >= 0x1D7CE and ord(c) <= 0x1D7FF else c for c in s)
+
+
+# alphabet (typeface) commands of LaTeX / unicode-math -- only these are undone, never operator macros such as \\mathratio
+_TEX_STYLE_RX = re.compile(r"\\(?:math(?:bf|it|mit|bit|bfit|sf|sfbf|sfsl|sfit|sfbfsl|sfbfit|tt|bb|scr|bfscr|cal|bcal|bfcal|frak|bfrak|bffrak|rm|up|bfup|sfup|normal)"
+                           r"|boldsymbol|bm|textbf|textit)(?![a-zA-Z])\s*")
+
+
+def decode_text_digits(code, s):
+    """what the text codes define for a digit with a typeface, undone: ASCIIMath passes the mathematical digit through (folded to ASCII
+    here), LaTeX writes one style macro per digit ('\\mathbf 1 \\mathbf 2': typeset as the bold number 12) -- the macros and the blanks
+    they leave between digits are removed.  Nothing else is changed, so a digit that is missing stays missing."""
+    s = fold_digits(s)
+    if code == "LaTeX" and "\\" in s:
+        s = _TEX_STYLE_RX.sub("\x01", s)                      # \x01 = "the next character has a typeface"
+        run = r"\x01[0-9](?:\s*\x01[0-9])*"
+        # a styled number = styled digits, optionally a decimal mark (plain or styled) and more styled digits; plain digits never join it
+        # (a list comma is followed by a blank, the decimal mark is not)
+        s = re.sub(r"%s(?:\s*\x01?[.,]%s)?" % (run, run), lambda m: " " + re.sub(r"[\x01\s]", "", m.group(0)) + " ", s)
+        s = s.replace("\x01", " ")
+    return s
 
 
 def count_verbatim(lit, s):
